@@ -266,6 +266,9 @@ func refApply(s0 *dbSnap, u *upd, nextGen int, litOf map[string]string) refResul
 		if mb == nil {
 			return res
 		}
+		if isRecovery(mb) {
+			return fail(false, "protected")
+		}
 		var mbs []*dbMb
 		for _, m := range s.Mb {
 			if m != mb {
@@ -290,6 +293,9 @@ func refApply(s0 *dbSnap, u *upd, nextGen int, litOf map[string]string) refResul
 			res.Valid = false
 			return res
 		}
+		if isRecovery(mb) {
+			return fail(false, "protected")
+		}
 		// names are compared exactly: a change of letter case is a rename
 		if mb.Name == canonName(u.Name) {
 			return res
@@ -304,7 +310,11 @@ func refApply(s0 *dbSnap, u *upd, nextGen int, litOf map[string]string) refResul
 		if mb == nil {
 			return fail(false, "unknown internal id")
 		}
-		if mb.RID == recoveryRID {
+		if isRecovery(mb) {
+			return fail(false, "protected")
+		}
+		if u.MboxRID == recoveryRID {
+			// no second mailbox may take the reserved remote id (the recovery mailbox holds it: "remote id in use")
 			return fail(false, "protected")
 		}
 		if o := s.mbByRID(u.MboxRID); o != nil && o != mb {
